@@ -804,6 +804,8 @@ def run(tier: str, seed: int) -> int:
         "netting to the signed rule is only demanded where the batch reduction commutes with the split "
         "(per-term reductions; sum for per-sample rewards)",
     ]
+    from .. import subcheck
+    hm = subcheck.spawn(PID, "harness.props.homeo", "phase", tier, seed + 1, "homeostasis-magnitude")
     model_check(chk, tier)
     tables = routing_tables(chk)
     quick = tier == "quick"
@@ -813,6 +815,7 @@ def run(tier: str, seed: int) -> int:
     canary(chk, tables)
     if "not_constructible" in chk.extra:
         chk.extra["not_constructible"] = sorted(chk.extra["not_constructible"])
+    subcheck.join(chk, hm)
     return chk.finish()
 
 
@@ -822,6 +825,13 @@ def replay(path: str) -> int:
     import json, os
     doc = json.load(open(path))
     sig = doc["signature"]
+    if doc["replay"].get("extension") == "Homeo" and "cfg" in doc["replay"]:
+        from .. import graph
+        from ..impl_homeo import HomeoImpl
+        rc = graph.rerun(doc["replay"], lambda: HomeoImpl(doc["replay"]["cfg"]))
+        if rc:
+            print(f"VIOLATION property={PID} replay={path}")
+        return rc
     kind = sig.get("kind")
     if kind not in KINDS:
         print(json.dumps(doc, indent=1)[:4000])
